@@ -1,4 +1,5 @@
 import Driver.SSDriver
+import Driver.CoreDriver
 /-
 `selen_model`: reads protocol lines on stdin, prints exactly one result line per
 input line.  State is reset by `case <id>`.
@@ -7,6 +8,7 @@ namespace Driver
 
 structure St where
   ss : SSSt := SSSt.fresh (Selen.SS.empty 0)
+  core : CoreSt := {}
 
 def step (st : St) (line : String) : St × String :=
   let ws := words line
@@ -18,6 +20,9 @@ def step (st : St) (line : String) : St × String :=
     if w.startsWith "ss." then
       let (s, out) := ssStep st.ss ws
       ({ st with ss := s }, out)
+    else if w = "st.var" || w = "prune" || w = "ctx.min" || w = "ctx.max" || w = "view.mm" then
+      let (c, out) := coreStep st.core ws
+      ({ st with core := c }, out)
     else (st, "bad-op")
 
 partial def loop (h : IO.FS.Stream) (out : IO.FS.Stream) (st : St) : IO Unit := do
